@@ -45,8 +45,10 @@ def pending_marker(ctx, gate):
             pol = isinstance(n.ast.ops[0], ast.IsNot)
             for d, l in n.succ:
                 if l == ('cond', pol):
-                    dn = cfg.nodes[d]
-                    if dn.kind == 'stmt' and isinstance(dn.ast, ast.Return) and isinstance(dn.ast.value, ast.Constant) and dn.ast.value.value is False:
+                    # a refusal (`return False`) is reachable on the not-None side before the mutation
+                    reach = cfg.reachable_from(d, follow_exc=False)
+                    if any(cfg.nodes[i].kind == 'stmt' and isinstance(cfg.nodes[i].ast, ast.Return) and isinstance(cfg.nodes[i].ast.value, ast.Constant)
+                           and cfg.nodes[i].ast.value.value is False for i in reach) and a not in marks:
                         marks.append(a)
     return marks
 
